@@ -30,7 +30,12 @@
 (*    mapper of any live object resolves exactly the pipelines of its namespace, to the latest    *)
 (*    generation (HandlerSound / HandlerComplete); the mapper of a past incarnation resolves       *)
 (*    nothing;                                                                                    *)
-(*  - namespaces are isolated (Isolated); Get / List / Walk / Status / GetHandler are read-only.  *)
+(*  - namespaces are isolated (Isolated); Get / List / Walk / Status / GetHandler are read-only;  *)
+(*    a walk function that panics is survived (the mutex is released);                            *)
+(*  - Clean(namespace) and TrafficController.Close close everything that is left exactly once.    *)
+(*    Close ends the controller's life (`closed`): the code leaves the entries in the namespace   *)
+(*    objects, what a mapper resolves afterwards means nothing and is not specified.  For the     *)
+(*    lock-free GetHandler a Clean takes effect object by object (TrafficCtl_CTrace).             *)
 (* Negative controls: UpdateMode = "reinit" (update without inheriting or closing the previous    *)
 (* generation) refuted by NoLeak; UpdateMode = "inherit_close" (the controller closes what it has *)
 (* handed to Inherit) refuted by DisposedOnce.                                                    *)
